@@ -26,7 +26,10 @@ type Expect struct {
 
 func normVer(v string) string {
 	switch v {
-	case "master", "main", "develop":
+	case "master", "main", "develop", "HEAD":
+		// the default branch under its usual names, and under the name the retriever reports
+		// for a file imported without a version: importing a file without a version and
+		// through a relative import of such a file is one definition, not a conflict
 		return ""
 	}
 	return v
